@@ -271,6 +271,8 @@ def loop_rules(body, sig):
     # R13: std sort/dedup on a Vec<u32> local -> assumed-contract helpers
     b = rule_sub("R13.sort_unstable->assumed-contract", r"\b(\w+)\.sort_unstable\(\);", lambda m: f"vpv_sort_unstable(&mut {m.group(1)});", b)
     b = rule_sub("R13.dedup->assumed-contract", r"\b(\w+)\.dedup\(\);", lambda m: f"vpv_dedup(&mut {m.group(1)});", b)
+    # R15: usize::saturating_sub on a simple receiver -> assumed-contract helper (templates using it define vpv_saturating_sub)
+    b = rule_sub("R15.saturating_sub->assumed-contract", r"((?:\w+\.)*\w+(?:\(\))?)\.saturating_sub\(", lambda m: f"vpv_saturating_sub({m.group(1)}, ", b)
     # R14: `(COND).then(|| EXPR)` is by definition `if COND { Some(EXPR) } else { None }`
     while True:
         m = re.search(r"\((?P<c>[^()]*(?:\([^()]*\)[^()]*)*)\)\s*\.then\(\s*\|\|\s*", b)
